@@ -75,6 +75,25 @@ def run(prog, run):
     ungated, tree, edges = r2(prog, run)
     r3(prog, run)
     r4(prog, run)
+    r6(prog, run)
+
+
+def r6(prog, run):
+    """elements of a new stream are dispatched to the current listener first (handlePacketReceived): a negotiation manager left over from an
+    earlier, encrypted connection would answer them behind the TLS gate.  The clause is C10.R4's; it is shared, not copied."""
+    from . import C10
+    rid = run.rule('C04.R6', 'no negotiation manager of an earlier connection is listening when a new stream starts: handleStart makes the client itself the listener on '
+                             'every path (= C10.R4), so the first elements of an unencrypted stream meet the TLS gate and not a stale authentication step', floor=1)
+    sub = type(run)(run.prop, run.tier, run.seed)
+    C10.r4(prog, sub)
+    run.instance(rid)
+    hits = [v for v in sub.violations if 'listener' in v['key']]
+    if hits:
+        run.violation(rid, 'handleStart#stale-listener', hits[0]['site'],
+                      'a new stream keeps the listener of the previous connection: a legacy-auth / SASL / bind step that was waiting for an answer when that connection ended '
+                      'processes the first elements of the new, still unencrypted stream and sends its next step (credentials) without the STARTTLS decision having been made')
+    else:
+        run.ok(rid, 'src/client/QXmppOutgoingClient.cpp', 'handleStart resets the listener to the client on every path (C10.R4)')
 
 
 # --------------------------------------------------------------------------- R0
